@@ -27,7 +27,7 @@ from ..core import Info, require, subcheck
 from .. import fakes
 
 TWO24 = 1 << 24
-PRIME = 2053  # > any N*T*F generated here
+PRIME = 4099  # prime > any N*T*F generated here (3 * 64 * 12)
 
 # proportions: dyadic (len * p exact in float32) plus the default 0.04 and two others whose
 # product with a length may round either way (handled by the ambiguity rule in _cap)
